@@ -214,7 +214,15 @@ def resolve(st: State, op):
         act.update(expect='reject', bad='currency_params')
         return act
     if kind == 'bad_type':
-        form = r[0] % 4
+        form = r[0] % 6
+        if form in (4, 5) and model.uorder:
+            # a Term, but not of quantity types: a term of units, or one
+            # with a number in it - with an explicit reference symbol
+            return {'a': 'bad_term_type', 'name': f'D{n}',
+                    'unit': decl._pick(model.uorder, r[1]),
+                    'with_number': form == 5, 'ref_sym': f'r{n}',
+                    'expect': 'reject', 'bad': 'term_of_wrong_elements'}
+        form %= 4
         if form == 3 and model.uorder:
             # a type derived from Money whose reference symbol is taken,
             # declared through the namespace dict the other types share
@@ -704,6 +712,17 @@ def perform(env: Env16, act):
                     except Exception:       # noqa
                         pass
         return 'ok', {'done': done}
+    if a == 'bad_term_type':
+        from quantity.term import Term
+        u = env.units[act['unit']]
+        bad = Term([(2, 1), (u.qty_cls, 1)]) if act['with_number'] \
+            else Term([(u, 1)])
+        try:
+            QuantityMeta(act['name'], (Quantity,), {}, define_as=bad,
+                         ref_unit_symbol=act['ref_sym'])
+        except Exception as e:      # noqa
+            return 'exc', type(e).__name__
+        return 'ok', {}
     if a == 'money_subtype':
         from quantity.money import Money
         try:
